@@ -715,6 +715,179 @@ pub fn replay_header_export(path: &str, prop: &str, seed: u64, rep: &mut Report)
     }
 }
 
+/// Replay of MC_EntryPoints: every case of the end / size rules (option x header field class x supplied size class
+/// x marker x cut x trailing bytes) is instantiated with three payloads whose last symbol is a copy, and decoded
+/// through all entry points the case names (plain, oneshot, building blocks, Stream in one write, Stream bytewise).
+/// TLC's verdict class is cross-checked with the byte-level oracle; "any" cases are decided by the oracle alone.
+pub fn replay_entry_points(path: &str, prop: &str, seed: u64, rounds: usize, rep: &mut Report) {
+    let lines = tlc_json_lines(path, "EP");
+    rep.add("tlc_entry_point_cases", lines.len() as u64);
+    let mut rng = StdRng::seed_from_u64(seed ^ 0xe9);
+    // payloads: (props, program ending in a copy of length >= 2)
+    let mut payloads: Vec<(Props, Vec<Sym>)> = vec![(Props { lc: 3, lp: 0, pb: 2 }, vec![Sym::Lit { b: b'a' }, Sym::Lit { b: b'b' }, Sym::Match { d: 2, n: 5 }])];
+    let mut shapes: Vec<(Props, usize)> = vec![(Props { lc: 0, lp: 2, pb: 0 }, 40usize), (Props { lc: 1, lp: 1, pb: 4 }, 300)];
+    for r in 1..rounds {
+        let lc = rng.gen_range(0..=8);
+        shapes.push((Props { lc, lp: rng.gen_range(0..=4), pb: rng.gen_range(0..=4) }, [1usize, 5, 60, 700, 3000][r % 5]));
+    }
+    for (props, n) in shapes {
+        let mut prog = random_walk(&mut rng, &WalkCfg { nsyms: n, props, max_dist: 4096, lit_alphabet: 20 });
+        prog.push(Sym::Lit { b: 0x41 });
+        prog.push(Sym::Match { d: 1, n: 3 });
+        payloads.push((props, prog));
+    }
+    let mut n = 0usize;
+    for l in &lines {
+        let v: Value = match serde_json::from_str(l) {
+            Ok(v) => v,
+            Err(e) => {
+                rep.tool_error(format!("bad EP line: {}", e));
+                continue;
+            }
+        };
+        let c = &v["c"];
+        let tv = v["verdict"].as_str().unwrap_or("");
+        let marker = c["marker"].as_bool().unwrap();
+        let cut = c["cut"].as_bool().unwrap();
+        let trail = c["trail"].as_bool().unwrap();
+        for (pi, (props, prog)) in payloads.iter().enumerate() {
+            n += 1;
+            let t = coding::encode_program(prog, *props).out.len() as u64;
+            let inst = |class: &str| -> Option<u64> {
+                match class {
+                    "none" => None,
+                    "zero" => Some(0),
+                    "tm1" => Some(t - 1),
+                    "true" => Some(t),
+                    "truePlus1" => Some(t + 1),
+                    "top" => Some(1 << 63),
+                    "allButOne" => Some(u64::MAX - 1),
+                    _ => Some(1 << 40),
+                }
+            };
+            let field = inst(c["field"].as_str().unwrap());
+            let provided = inst(c["provided"].as_str().unwrap());
+            let opt = match c["opt"].as_str().unwrap() {
+                "ReadFromHeader" => Opt::ReadFromHeader,
+                "ReadHeaderButUseProvided" => Opt::ReadHeaderButUseProvided { n: provided },
+                _ => Opt::UseProvided { n: provided },
+            };
+            let mut pr = prog.clone();
+            if marker {
+                pr.push(Sym::Eos);
+            }
+            let mut data = lzma_header(*props, [4096u32, 1 << 20, 0][pi % 3], if opt.header_len() == 13 { Some(field.unwrap_or(u64::MAX)) } else { None });
+            data.extend_from_slice(&coding::encode_program(&pr, *props).payload);
+            if cut {
+                data.pop();
+            }
+            if trail {
+                let k = [1usize, 7, 30][(n / 3) % 3];
+                for j in 0..k {
+                    data.push(if k == 1 { 0 } else { rng.gen::<u8>() | (j == 0) as u8 });
+                }
+            }
+            let e = expect_lzma(&data, opt, None);
+            let size_eff = inst(v["size"].as_str().unwrap_or("none"));
+            if size_eff != crate::oracle::size_in_effect(opt, field) {
+                rep.tool_error(format!("EntryPoints.tla and the oracle disagree on the size in effect: {}", l));
+                continue;
+            }
+            let agrees = match tv {
+                "okT" => e.v == Exp::Ok && e.out.len() as u64 == t,
+                "ok0" => e.v == Exp::Ok && e.out.is_empty(),
+                "err" => e.v == Exp::Err,
+                _ => true,
+            };
+            if !agrees {
+                rep.tool_error(format!("EntryPoints.tla says {} but the byte-level oracle says {:?}/{} ({} bytes) for payload #{}: {}", tv, e.v, e.class, e.out.len(), pi, l));
+                continue;
+            }
+            if tv == "any" {
+                rep.count("entry_points_rule_leaves_open");
+            }
+            let o = api::options(opt, None, false);
+            let one = api::lzma_bytes_consumed(&data, &o);
+            for ep in v["eps"].as_array().unwrap() {
+                let ep = ep.as_str().unwrap();
+                let (out, consumed): (api::Outcome, Option<usize>) = match ep {
+                    "plain" => {
+                        let (o, c) = api::lzma_plain_consumed(&data);
+                        (o, Some(c))
+                    }
+                    "oneshot" => (api::Outcome { verdict: one.0.verdict, out: one.0.out.clone(), msg: one.0.msg.clone() }, Some(one.1)),
+                    "blocks" => {
+                        let (o, c) = api::lzma_blocks_consumed(&data, &o);
+                        (o, Some(c))
+                    }
+                    "stream1" | "streamN" => {
+                        let cuts: Vec<usize> = if ep == "stream1" { vec![] } else { (1..data.len()).collect() };
+                        let r = api::stream_run(&data, &cuts, &o);
+                        (api::Outcome { verdict: r.verdict, out: r.out, msg: r.msg }, None)
+                    }
+                    other => {
+                        rep.tool_error(format!("unknown entry point {}", other));
+                        continue;
+                    }
+                };
+                rep.eval(hash_of(&(hex(&data), ep, format!("{:?}", opt))), true);
+                let mut vs: Vec<String> = vec![];
+                match out.verdict {
+                    Verdict::Panic => vs.push(format!("panic: {}", out.msg)),
+                    Verdict::Ok => match e.v {
+                        Exp::Err => vs.push(format!("accepted ({} bytes) although the rules say error ({})", out.out.len(), e.class)),
+                        _ => {
+                            if out.out != e.out {
+                                vs.push(format!("output of {} bytes, the stream defines {}", out.out.len(), e.out.len()));
+                            } else if let (Some(c1), Some(ec)) = (consumed, e.consumed) {
+                                if e.v == Exp::Ok && c1 != ec {
+                                    vs.push(format!("consumed {} input bytes, the payload ends at {} (rule: {})", c1, ec, v["consumed"]));
+                                }
+                            }
+                        }
+                    },
+                    Verdict::Err => {
+                        if e.v == Exp::Ok {
+                            vs.push(format!("rejected although the rules say success: {}", out.msg));
+                        }
+                    }
+                }
+                // C05: whatever the rules leave open, the streaming decoder must side with the one-shot decoder
+                if vs.is_empty() && ep.starts_with("stream") && one.0.verdict != Verdict::Panic && out.verdict != Verdict::Panic {
+                    if (out.verdict == Verdict::Ok) != (one.0.verdict == Verdict::Ok) || (out.verdict == Verdict::Ok && out.out != one.0.out) {
+                        vs.push(format!("{} gives {:?} ({} bytes), the one-shot decoder {:?} ({} bytes)", ep, out.verdict, out.out.len(), one.0.verdict, one.0.out.len()));
+                    }
+                }
+                if !vs.is_empty() {
+                    let case = LzmaCase {
+                        api: if ep.starts_with("stream") { "stream".into() } else { "oneshot".into() },
+                        props: *props,
+                        dict: 4096,
+                        prog: vec![],
+                        size_field: field,
+                        opt,
+                        raw_size: None,
+                        memlimit: None,
+                        trailing: String::new(),
+                        truncate: None,
+                        cuts: if ep == "streamN" { (1..data.len()).collect() } else { vec![] },
+                        data_hex: Some(hex(&data)),
+                        spec: None,
+                        origin: format!("tlc:MC_EntryPoints:{}:payload{}", ep, pi),
+                    };
+                    let mut cj = serde_json::to_value(&case).unwrap();
+                    cj["kind"] = json!("lzma");
+                    cj["entry_point"] = json!(ep);
+                    cj["tlc_case"] = v.clone();
+                    rep.violation(prop, format!("{} [{}]: {}", ep, l.chars().take(160).collect::<String>(), vs.join("; ")), cj);
+                } else if rep.samples.len() < 6 && n % 211 == 1 {
+                    rep.sample(json!({"origin": "tlc:MC_EntryPoints", "case": c, "verdict_class": tv, "entry_point": ep, "payload": pi}));
+                }
+            }
+        }
+    }
+}
+
 /// C08: option x header-size-field x end-marker x caller-supplied-size matrix on the one-shot and
 /// the streaming API (the raw decoder is covered by the TLC export).
 pub fn options_matrix(prop: &str, seed: u64, nprogs: usize, rep: &mut Report) {
